@@ -1297,7 +1297,9 @@ fn k_platform(sc: &J, r: &R) {
 // fall back to ordinary reads and give the hash of those bytes
 #[cfg(feature = "mmap")]
 fn fifo_case(n: usize, rayon: bool) -> Result<(u64, blake3::Hash), String> {
-    let dir = std::env::temp_dir().join(format!("vf_fifo_{}_{}_{}", std::process::id(), n, rayon));
+    // inside the scratch directory of this search run (removed with it), never in /tmp itself
+    let base = std::env::var("REPLAY_SCRATCH").map(std::path::PathBuf::from).unwrap_or_else(|_| std::env::temp_dir());
+    let dir = base.join(format!("vf_fifo_{}_{}_{}", std::process::id(), n, rayon));
     let _ = std::fs::remove_file(&dir);
     let st = std::process::Command::new("mkfifo").arg(&dir).status().map_err(|e| e.to_string())?;
     if !st.success() {
@@ -1339,7 +1341,8 @@ fn k_mmap_special(sc: &J, r: &R) {
     #[cfg(feature = "mmap")]
     if path.starts_with("loop:") {
         let n: usize = path[5..].parse().unwrap_or(0);
-        let img = std::env::temp_dir().join(format!("vf_loop_{}_{}.img", std::process::id(), n));
+        let base = std::env::var("REPLAY_SCRATCH").map(std::path::PathBuf::from).unwrap_or_else(|_| std::env::temp_dir());
+        let img = base.join(format!("vf_loop_{}_{}.img", std::process::id(), n));
         let data: Vec<u8> = (0..n).map(|i| (i % 251) as u8).collect();
         std::fs::write(&img, &data).expect("driver: cannot write loop image");
         let out = std::process::Command::new("losetup").args(["-f", "--show", "-r"]).arg(&img).output();
